@@ -1,7 +1,7 @@
 /* C13 driver.
  *   c13_drv downmix          : stdin lines "bits amp offs x" -> encoded output unit per line
  *   c13_drv ticksize <module>: stdin lines "freq tf_hex rrate_hex bpm" -> ticksize after libxmp_mixer_prepare
- *   c13_drv timeline <module> <nframes> <rate> <format> <interp> <amp> <mix> <vol> <mode:T|P|H>
+ *   c13_drv timeline <module> <nframes> <rate> <format> <interp> <amp> <mix> <vol> <mode:T|P|H> [<tempo factor|-> [<frame:interp:amp:mix:vol:dsp>]]
  *         T: per frame  "pos pattern row num_rows frame speed bpm time loop_count total_time sequence buffer_size frame_time_us tf rr"
  *         P: per frame  hex of the PCM buffer
  *         H: per frame  "buffer_size fnv"
@@ -72,8 +72,18 @@ static int do_timeline(int argc, char **argv)
 	xmp_set_player(c, XMP_PLAYER_AMP, amp);
 	xmp_set_player(c, XMP_PLAYER_MIX, mix);
 	xmp_set_player(c, XMP_PLAYER_VOLUME, vol);
-	if (argc >= 12 && xmp_set_tempo_factor(c, atof(argv[11])) != 0) { puts("TEMPO-FACTOR-REFUSED"); return 0; }
+	int sw_at = -1, sw_interp = 0, sw_amp = 0, sw_mix = 0, sw_vol = 0, sw_dsp = 0;
+	if (argc >= 12 && strcmp(argv[11], "-") && xmp_set_tempo_factor(c, atof(argv[11])) != 0) { puts("TEMPO-FACTOR-REFUSED"); return 0; }
+	/* argv[12] = "frame:interp:amp:mix:vol:dsp": before that frame is played, the output parameters are set again, to these values */
+	if (argc >= 13) sscanf(argv[12], "%d:%d:%d:%d:%d:%d", &sw_at, &sw_interp, &sw_amp, &sw_mix, &sw_vol, &sw_dsp);
 	for (i = 0; i < nframes; i++) {
+		if (i == sw_at) {
+			xmp_set_player(c, XMP_PLAYER_INTERP, sw_interp);
+			xmp_set_player(c, XMP_PLAYER_AMP, sw_amp);
+			xmp_set_player(c, XMP_PLAYER_MIX, sw_mix);
+			xmp_set_player(c, XMP_PLAYER_VOLUME, sw_vol);
+			xmp_set_player(c, XMP_PLAYER_DSP, sw_dsp);
+		}
 		if (xmp_play_frame(c) < 0) { puts("END"); break; }
 		xmp_get_frame_info(c, &fi);
 		if (mode == 'T') {
